@@ -52,6 +52,16 @@ CUSTOM_MENU = [
 ]
 
 
+def as_container(vertices, style):
+    """how a user callback may hand the drawn stubs on to the library's own motif functions"""
+    if style == "tuple":
+        return tuple(vertices)
+    if style == "ndarray":
+        import numpy as np
+        return np.asarray(list(vertices))
+    return list(vertices)
+
+
 class Recorder:
     """Owns the build / naming callbacks handed to the generator: the generator's only side channel."""
 
@@ -61,16 +71,20 @@ class Recorder:
         self.alarms = []
         self.library_calls = 0
         self.decoy = None
+        self.on_build = None     # optional hook: called with the motif index at the start of every build callback
 
     # fast / network flavour -----------------------------------------------------------------
-    def fast_builder(self, k, shape, use_library):
+    def fast_builder(self, k, shape, use_library, lib_arg="list", scratch=False):
         import gcmpy
         lib = {"clique": gcmpy.clique_motif, "cycle": gcmpy.cycle_motif, "diamond": gcmpy.diamond_motif}
+        buf = []
 
         def build(vertices):
             args = tuple(vertices)
+            if self.on_build is not None:
+                self.on_build(k)
             if use_library and shape in lib and not (shape == "cycle" and len(args) < 3):
-                es = sut(f"{shape}_motif{args}", lib[shape], list(vertices))
+                es = sut(f"{shape}_motif{args}", lib[shape], as_container(vertices, lib_arg))
                 es_norm = [tuple(e) for e in es]
                 self.library_calls += 1
                 # the library's own motif generators are part of the generator path: check them against the definition
@@ -84,19 +98,27 @@ class Recorder:
                 es = shape_edges(shape, args)
                 es_norm = list(es)
             self.calls.append((k, args, es_norm, "list"))
+            if scratch:
+                # a callback that re-uses ONE result container: cleared and refilled at every call (legitimate: the generator is
+                # handed the edges at the moment of the call)
+                buf.clear(); buf.extend(es)
+                return buf
             return es
         return build
 
     # custom flavour -------------------------------------------------------------------------
-    def custom_builder(self, j, shape, tuple_result, use_library=False):
+    def custom_builder(self, j, shape, tuple_result, use_library=False, lib_arg="list", scratch=False):
         import gcmpy
         lib = {"clique": gcmpy.clique_motif, "cycle": gcmpy.cycle_motif, "diamond": gcmpy.diamond_motif}
+        buf = []
 
         def build(vertices):
             args = tuple(vertices)
+            if self.on_build is not None:
+                self.on_build(j)
             if use_library and shape in lib and not (shape == "cycle" and len(args) < 3):
                 # the library's own motif function as the user's build callback (what the documentation suggests)
-                es = sut(f"{shape}_motif{args}", lib[shape], list(vertices))
+                es = sut(f"{shape}_motif{args}", lib[shape], as_container(vertices, lib_arg))
                 es_norm = [tuple(e) for e in es]
                 self.library_calls += 1
                 try:
@@ -106,12 +128,18 @@ class Recorder:
                 if not ok:
                     self.alarms.append({"motif_function": shape, "args": args, "returned": repr(es)[:300]})
                 self.calls.append((j, args, es_norm, "list"))
+                if scratch:
+                    buf.clear(); buf.extend(es)
+                    return buf
                 return es
             if shape == "bare":
                 self.calls.append((j, args, [(args[0], args[1])], "bare"))
                 return (args[0], args[1])
             es = shape_edges(shape, args)
             self.calls.append((j, args, list(es), "list"))
+            if scratch and not tuple_result:
+                buf.clear(); buf.extend(es)
+                return buf
             return tuple(es) if tuple_result else list(es)
         return build
 
@@ -159,7 +187,7 @@ def make_fast_config(rng, allow_empty=False, distinct=True):
     elif r < 0.17:
         names[rng.randrange(T)] = ""                 # so is the empty string
     return {"flavour": rng.choice(["fast", "fast", "network"]), "motifs": [list(m) for m in motifs],
-            "names": names, "decoy": rng.random() < 0.25,
+            "names": names, "decoy": rng.random() < 0.25, "lib_arg": rng.choice(["list", "list", "list", "tuple", "ndarray"]), "scratch": rng.random() < 0.15,
             "path": rng.choice(["direct", "main-enum", "main-str", "factory"]), "use_library": rng.random() < 0.7}
 
 
@@ -183,7 +211,8 @@ def make_custom_config(rng, force=None):
         indices.append([col[o] for o in range(len(orbits))])
     return {"flavour": "custom", "motifs": [[list(o), s, n] for o, s, n in motifs], "sizes": sizes, "indices": indices,
             "path": rng.choice(["direct", "main-enum", "main-str", "factory"]), "tuple_result": rng.random() < 0.6,
-            "use_library": rng.random() < 0.5, "decoy": rng.random() < 0.25}
+            "use_library": rng.random() < 0.5, "decoy": rng.random() < 0.25, "lib_arg": rng.choice(["list", "list", "list", "tuple", "ndarray"]),
+            "scratch": rng.random() < 0.15}
 
 
 def columns_of(cfg):
@@ -249,7 +278,8 @@ def build_algorithm(cfg, rec):
         namers = []
         builders = []
         for j, (orbits, shape, style) in enumerate(cfg["motifs"]):
-            builders.append(rec.custom_builder(j, shape, cfg["tuple_result"], use_library=cfg.get("use_library", False)))
+            builders.append(rec.custom_builder(j, shape, cfg["tuple_result"], use_library=cfg.get("use_library", False),
+                                               lib_arg=cfg.get("lib_arg", "list"), scratch=cfg.get("scratch", False)))
             namers.append(rec.custom_namer(j, shape, style, sum(orbits), cfg["tuple_result"]))
         params[G.BUILD_FUNCTIONS] = builders
         params[G.EDGE_NAMES] = namers
@@ -257,7 +287,8 @@ def build_algorithm(cfg, rec):
         rec.namers = namers
     else:
         params[G.MOTIF_SIZES] = [m[1] for m in cfg["motifs"]]
-        params[G.BUILD_FUNCTIONS] = [rec.fast_builder(k, m[0], cfg["use_library"]) for k, m in enumerate(cfg["motifs"])]
+        params[G.BUILD_FUNCTIONS] = [rec.fast_builder(k, m[0], cfg["use_library"], lib_arg=cfg.get("lib_arg", "list"), scratch=cfg.get("scratch", False))
+                                     for k, m in enumerate(cfg["motifs"])]
         params[G.EDGE_NAMES] = list(cfg["names"])
         if cfg["flavour"] == "network":
             cls, ty = gcmpy.GCMAlgorithmNetwork, Ty.NETWORK
